@@ -150,7 +150,7 @@ pub fn check_hide(case: &HideCase, st: &mut Stats) -> Result<(), String> {
 
 /// A hide-only sheet: display:none or the zero-height idiom on generated / derived selectors.
 fn hide_sheet(ids: usize) -> BoxedStrategy<Sheet> {
-    let prop = prop_oneof![3 => Just(Prop::DisplayNone), 1 => any::<bool>().prop_map(Prop::ZeroHeightHidden), 1 => any::<bool>().prop_map(Prop::ZeroHeightMixed)];
+    let prop = prop_oneof![6 => Just(Prop::DisplayNone), 2 => any::<bool>().prop_map(Prop::ZeroHeightHidden), 2 => any::<bool>().prop_map(Prop::ZeroHeightMixed), 2 => (0u8..6).prop_map(Prop::ZeroHeightUnit), 3 => (0u8..10).prop_map(Prop::NearMiss)];
     prop::collection::vec((prop::collection::vec(cssgen::complex(ids), 1..=2), prop, prop::bool::weighted(0.2)), 0..=3)
         .prop_map(|rules| rules.into_iter().map(|(selectors, prop, important)| Rule { selectors, decls: vec![Decl { prop, important }] }).collect())
         .boxed()
@@ -202,6 +202,18 @@ fn hide_case() -> BoxedStrategy<HideCase> {
                         2 => "max-height:0;height:20px;overflow:hidden".to_string(),
                         _ => "overflow:hidden;height:0;max-height:100px".to_string(),
                     });
+                } else if c % 9 == 1 {
+                    // other spellings of the idiom (hide) and near misses (do not hide)
+                    a.style = Some(match (c / 9) % 8 {
+                        0 => "height:0px;overflow:hidden".to_string(),
+                        1 => "max-height:0em;overflow-y:hidden".to_string(),
+                        2 => "height:0.0pt;overflow:hidden".to_string(),
+                        3 => "height:0;overflow:visible".to_string(),
+                        4 => "height:20px;overflow:hidden".to_string(),
+                        5 => "max-height:0;overflow:auto".to_string(),
+                        6 => "overflow:hidden".to_string(),
+                        _ => "height:0;overflow-y:scroll".to_string(),
+                    });
                 }
             });
             let mut styling = Styling::default();
@@ -246,6 +258,11 @@ fn explicit_items() -> Vec<ExplicitHide> {
         e("<p>x <a href=u class=h>l</a> <a href=v>m</a></p>", ".h{display:none}", "<p>x  <a href=v>m</a></p>"),
         e("<table><tr><td>a</td><td id=k>b</td><td>c</td></tr></table>", "#k{height:0;overflow:hidden}", "<table><tr><td>a</td><td>c</td></tr></table>"),
         e("<div style=\"display:none\"><p id=q>a</p></div><p>b</p>", "", "<p>b</p>"),
+        // zero lengths with a fractional part or a unit hide (fix b391621); near misses do not
+        e("<p>a</p><p id=k>b</p>", "#k{height:0.0pt;overflow:hidden}", "<p>a</p>"),
+        e("<p>a</p><p id=k>b</p>", "#k{max-height:0.00em;overflow-y:hidden}", "<p>a</p>"),
+        e("<p>a</p><p id=k>b</p>", "#k{height:0.5em;overflow:hidden}", "<p>a</p><p>b</p>"),
+        e("<p>a</p><p id=k>b</p>", "#k{height:0;overflow:visible}", "<p>a</p><p>b</p>"),
     ]
 }
 
@@ -254,7 +271,7 @@ pub fn property() -> Property {
     Property {
         id: "C18",
         level: "exploration",
-        rule: "grammar documents (lists, quotes, headings, dl, tables incl. nested, links, ids) decorated with classes/ids; hide-only styling: a sheet of <= 3 rules (display:none or height/max-height:0 + overflow:hidden, 20% !important) on selectors from C20's grammar or simple class/id/element/nth-child selectors, delivered as user CSS, agent CSS or the document's <style>, plus inline display:none / zero-height styles; width 1..=100; plain (decorated, footnotes on) and rich. Oracle (differential, deletion on the oracle DOM): the hidden set is computed by the reference matcher/cascade; render(d with CSS) must equal render(serialise(oracle DOM minus hidden subtrees, styles stripped)) byte for byte, for rich also the tagged lines (fragment markers, annotations); and with use_doc_css off the document renders as with all <style> elements and style attributes stripped. Non-trivial = a hidden li / cell / row / link / id-bearing element whose parent is visible; distinct by the whole case.",
+        rule: "grammar documents (lists, quotes, headings, dl, tables incl. nested, links, ids) decorated with classes/ids; hide-only styling: a sheet of <= 3 rules (display:none, height/max-height:0 + overflow:hidden incl. zero lengths with units and overflow-y, or - one rule in five - a near miss of the idiom that must hide nothing: overflow visible/auto/scroll, a non-zero height, one half of the idiom alone; 20% !important) on selectors from C20's grammar or simple class/id/element/nth-child selectors, delivered as user CSS, agent CSS or the document's <style>, plus inline display:none / zero-height styles; width 1..=100; plain (decorated, footnotes on) and rich. Oracle (differential, deletion on the oracle DOM): the hidden set is computed by the reference matcher/cascade; render(d with CSS) must equal render(serialise(oracle DOM minus hidden subtrees, styles stripped)) byte for byte, for rich also the tagged lines (fragment markers, annotations); and with use_doc_css off the document renders as with all <style> elements and style attributes stripped. Non-trivial = a hidden li / cell / row / link / id-bearing element whose parent is visible; distinct by the whole case.",
         assumptions: vec!["the serialiser of the oracle DOM is checked per case by a round trip (cases where re-serialising changes the rendering are discarded and counted)", "sheets contain no competing non-none display declarations (a losing display:none still hides: known finding)"],
         hang_is_violation: false,
         subs: vec![
